@@ -190,6 +190,103 @@ def stream_kinds(run, types, thorough):
             run.case(('stream-kinds', name, enc))
 
 
+def second_api_and_reuse(run, types, thorough):
+    """(a) `read_with_context`/`send_with_context` are the same codec as
+    `read`/`send` (packet definitions go through them); (b) decoding does not
+    depend on what an *earlier* read on the same stream object ran into: after
+    a read that was cut short, the object is refilled/rewound and read again."""
+    import io
+    from minecraft.networking.connection import ConnectionContext
+    from minecraft.networking.packets import PacketBuffer
+    ctx = ConnectionContext(protocol_version=757)
+    rng = run.rng('second-api')
+    values = [0, 1, 127, 128, 2 ** 21 - 1, 2 ** 28, 2 ** 31 - 1, 2 ** 32 - 1,
+              2 ** 35, 2 ** 42 - 1, 2 ** 42, 2 ** 49, 2 ** 56, 2 ** 63 - 1,
+              2 ** 63, 2 ** 64 - 1] + [rng.getrandbits(rng.randrange(1, 65))
+                                       for _ in range(200 if thorough else 40)]
+    for i, n in enumerate(values):
+        if not run.mine(i):
+            continue
+        enc = ref.encode(n)
+        for T, name, nominal in types:
+            if len(enc) > nominal:
+                continue
+            s1, s2 = CountingStream(enc + b'\x5a'), CountingStream(enc + b'\x5a')
+            try:
+                a = ('ret', T.read(s1), s1.pos)
+            except Exception as e:
+                a = ('raise', type(e).__name__, None)
+            try:
+                b = ('ret', T.read_with_context(s2, ctx), s2.pos)
+            except Exception as e:
+                b = ('raise', type(e).__name__, None)
+            run.count('second_api.decodes')
+            if a != b or a[:2] != ('ret', n):
+                run.violation('decode/%s/with-context-differs' % name,
+                              'read_with_context does not decode like read',
+                              {'n': n, 'read': a, 'read_with_context': b})
+            b1, b2 = PacketBuffer(), PacketBuffer()
+            try:
+                T.send(n, b1)
+                T.send_with_context(n, b2, ctx)
+                same = b1.get_writable() == b2.get_writable() == enc
+            except Exception as e:
+                same = repr(e)
+            if same is not True:
+                run.violation('encode/%s/with-context-differs' % name,
+                              'send_with_context does not encode like send',
+                              {'n': n, 'detail': same})
+    # (b) one stream object, a truncated read, then fresh content
+    shapes = [b'\xff', b'\x80\x80', b'\xff\xff\xff', b'\x80' * 4,
+              b'\xff' * 6, b'\x81\x82\x83\x84\x85\x86\x87']
+    follow = [0, 1, 127, 128, 300, 2 ** 28, 2 ** 31 - 1, 2 ** 32 - 1]
+    for j, cut in enumerate(shapes):
+        if not run.mine(1000 + j):
+            continue
+        for T, name, nominal in types:
+            for T2, name2, nominal2 in types:
+                for n in follow:
+                    enc = ref.encode(n)
+                    for kind in ('PacketBuffer', 'BytesIO'):
+                        if kind == 'PacketBuffer':
+                            st = PacketBuffer()
+                            st.send(cut)
+                            st.reset_cursor()
+                        else:
+                            st = io.BytesIO(cut)
+                        try:
+                            T.read(st)
+                            first = 'ret'
+                        except (EOFError, ValueError):
+                            first = 'raise'
+                        # the application re-uses the object for new data
+                        if kind == 'PacketBuffer':
+                            st.reset()
+                            st.send(enc + b'\x5a')
+                            st.reset_cursor()
+                        else:
+                            st.seek(0)
+                            st.truncate()
+                            st.write(enc + b'\x5a')
+                            st.seek(0)
+                        try:
+                            got = ('ret', T2.read(st))
+                        except Exception as e:
+                            got = ('raise', type(e).__name__)
+                        run.count('second_api.reads_after_a_truncated_read')
+                        rest = st.read()
+                        if got != ('ret', n) or rest != b'\x5a':
+                            run.violation(
+                                'decode/%s/depends-on-earlier-read' % name2,
+                                'a read that follows a truncated read on the '
+                                'same (refilled) stream object does not decode'
+                                ' the new content on its own', {
+                                    'truncated': cut, 'first_type': name,
+                                    'first': first, 'stream': kind, 'n': n,
+                                    'got': got, 'left': rest})
+                            break
+
+
 def run(run):
     from minecraft.networking.types import VarInt, VarLong
     from minecraft.networking.packets import PacketBuffer
@@ -444,7 +541,10 @@ def run(run):
                     'canonical': ref.encode(300)})
         run.sample({'negatives_tried': negs[:6]})
     stream_kinds(run, types, thorough)
+    second_api_and_reuse(run, types, thorough)
     run.require('stream_kinds.partitions', 200)
+    run.require('second_api.decodes', 20)
+    run.require('second_api.reads_after_a_truncated_read', 50)
     run.require('decode.returned', 100)
     run.require('decode.raised', 100)
     run.require('termination.line_events', 50)
